@@ -104,6 +104,94 @@ Fixpoint serialized (incall : bool) (st : list istep) : bool :=
       end
   end.
 
+(* ---- catch-up exactly when due, and no skipped version, on the implementation's trace ---- *)
+
+(* the steps at which something was put into cbch, in order (with the API call that did it),
+   and the steps at which the callback goroutine took something out *)
+Fixpoint enq_steps (prev : obs) (st : list istep) : list (N * option N) :=
+  match st with
+  | [] => []
+  | x :: r =>
+      (match i_lab x with
+       | LApiAct t 2 => [(i_idx x, Some t)]
+       | LMonAct false => if (o_mon prev =? 1) || (o_mon prev =? 5) || (o_mon prev =? 6) then [(i_idx x, None)] else []
+       | _ => []
+       end) ++ enq_steps (i_obs x) r
+  end.
+Fixpoint take_steps (prev : obs) (st : list istep) : list N :=
+  match st with
+  | [] => []
+  | x :: r =>
+      (match i_lab x with LCbTake => if 0 <? o_cbq prev then [i_idx x] else [] | _ => [] end)
+        ++ take_steps (i_obs x) r
+  end.
+
+Fixpoint index_of {A} (f : A -> bool) (l : list A) (i : nat) : option nat :=
+  match l with [] => None | a :: r => if f a then Some i else index_of f r (S i) end.
+
+(* the step at which the registration of h was taken by the callback goroutine (cbch is FIFO) *)
+Definition reg_taken_at (init : obs) (st : list istep) (h : N) : option N :=
+  match find (fun to => match snd to with OpRegister h' _ => h' =? h | _ => false end) (threads st) with
+  | Some (tid, _) =>
+      match index_of (fun e => match snd e with Some t => t =? tid | None => false end) (enq_steps init st) 0 with
+      | Some k => nth_error (take_steps init st) k
+      | None => None
+      end
+  | None => None
+  end.
+
+Definition last_new_before (st : list istep) (j : N) : N :=
+  fold_left (fun acc ie => match snd ie with
+                           | OCall (OINew _ n _) => if fst ie <? j then n else acc
+                           | _ => acc end) (events st) 0.
+
+Definition globals_shown (su : setup) : bool := negb (p_delay (su_p su) && p_suppress (su_p su)).
+
+(* an immediate call exactly when the token is valid and below the last announced serial *)
+Definition catchup_when_due (su : setup) (init : obs) (st : list istep) : bool :=
+  negb (globals_shown su) ||
+  forallb (fun h =>
+    match token_of st h, reg_taken_at init st h with
+    | Some tok, Some j =>
+        let L := last_new_before st j in
+        let at_j := filter (fun c => fst (fst c) =? j) (user_calls st h) in
+        match tok with
+        | Some t =>
+            if fst t <? L
+            then match at_j with
+                 | [(_, o, Some v)] => (o =? fst t) && (fst v =? L)
+                 | _ => false
+                 end
+            else match at_j with [] => true | _ => false end
+        | None => match at_j with [] => true | _ => false end
+        end
+    | _, _ => true
+    end) (handles st).
+
+Definition unreg_started (st : list istep) (h : N) : N :=
+  match find (fun x => match i_lab x with LApiStart _ (OpUnregister h') => h' =? h | _ => false end) st with
+  | Some x => i_idx x
+  | None => 2 + N.of_nat (length st)
+  end.
+
+(* every version announced (OnNewConfig) after h's registration was taken, above its token and
+   before any unregister of h was started, is also handed to h *)
+Definition no_version_skipped (su : setup) (init : obs) (st : list istep) : bool :=
+  negb (globals_shown su) ||
+  forallb (fun h =>
+    match token_of st h, reg_taken_at init st h with
+    | Some tok, Some j =>
+        let u := unreg_started st h in
+        forallb (fun ie =>
+          match snd ie with
+          | OCall (OINew _ n _) =>
+              negb ((j <? fst ie) && (fst ie <? u) && (tok_s tok <? n)) ||
+              existsb (fun c => match snd c with Some v => fst v =? n | None => false end) (user_calls st h)
+          | _ => true
+          end) (events st)
+    | _, _ => true
+    end) (handles st).
+
 Definition spec_ok (c : ccase) : bool :=
   match c with
   | CoreCrash _ _ => false
@@ -111,7 +199,8 @@ Definition spec_ok (c : ccase) : bool :=
       let st := index_from 1 steps in
       (negb (res =? 0)) ||
       (never_stale st && predecessor_ok st && catchup_first st && none_after_unregister st
-       && global_in_order st && serialized false st)
+       && global_in_order st && serialized false st
+       && catchup_when_due su init st && no_version_skipped su init st)
   end.
 
 Definition check (c : ccase) : N := verdict (spec_ok c) c.
